@@ -193,6 +193,18 @@ def _vdw(spec, ctx):
         ctx.close('Z5', e.a / (27. / 64. * (R_SI * Tc) ** 2 / (Pc * 1e5)), 1.0, 2e-6, {'step': 'a'})
         ctx.close('Z5', e.b / (R_SI * Tc / 8. / (Pc * 1e5)), 1.0, 2e-6, {'step': 'b'})
         a, b = e.a, e.b
+        # history: a user edits the public parameters of one object and builds another one from the
+        # same critical constants -- the second must again reproduce them (no shared / cached object)
+        e_edit = ctx.call('Z5', {'step': 'from_critical', 'history': 'edit_then_rebuild'},
+                          vanDerWaalsEOS.from_critical, Tc=Tc, Pc=Pc)
+        if e_edit is not core.NOVALUE:
+            e_edit.a = e_edit.a * 1.5
+            e_edit.b = e_edit.b * 0.7
+            e_new = ctx.call('Z5', {'step': 'from_critical', 'history': 'edit_then_rebuild'},
+                             vanDerWaalsEOS.from_critical, Tc=Tc, Pc=Pc)
+            if e_new is not core.NOVALUE:
+                ctx.close('Z5', [e_new.get_Tc() / Tc, e_new.get_Pc() / Pc, e.get_Tc() / Tc], [1.0, 1.0, 1.0], 1e-12,
+                          {'step': 'rebuild_after_edit'})
     else:
         a, b = spec['a'], spec['b']
         e = vanDerWaalsEOS(a=a, b=b)
